@@ -1,0 +1,43 @@
+// Copyright 2020-2025 Buf Technologies, Inc.
+//
+// Licensed under the Apache License, Version 2.0 (the "License");
+// you may not use this file except in compliance with the License.
+// You may obtain a copy of the License at
+//
+//      http://www.apache.org/licenses/LICENSE-2.0
+//
+// Unless required by applicable law or agreed to in writing, software
+// distributed under the License is distributed on an "AS IS" BASIS,
+// WITHOUT WARRANTIES OR CONDITIONS OF ANY KIND, either express or implied.
+// See the License for the specific language governing permissions and
+// limitations under the License.
+
+//go:build verif
+
+package normalpath
+
+// Contracts for the gocv verifier (see /verif/DESIGN.md). Comment-only.
+// Spec predicates validRel, cleanShape, ancOrSelf, inside, join2, dirOf: /verif/specs/paths.spec.
+//
+//@ pure func Normalize(path) (r)
+//@   property C13
+//@   ensures shape: cleanShape(r)
+//@   ensures idempotent: cleanShape(path) ==> r == path
+//
+//@ pure func Unnormalize(path) (r)
+//@   property C13
+//@   ensures r == path
+//
+// The validator: whatever combination of ".", "..", empty, repeated-separator or absolute
+// components the input has, a nil error means the result is a valid relative path.
+//@ func NormalizeAndValidate(path) (r, err)
+//@   property C13
+//@   reveal validRel, cleanShape
+//@   ensures valid: err == nil ==> validRel(r)
+//@   ensures normalized: err == nil ==> r == Normalize(path)
+//@   ensures err != nil ==> r == ""
+//@   canary ensures err != nil
+//
+//@ func NewError(path, err) (r)
+//@   property C13
+//@   ensures r != nil
